@@ -90,7 +90,8 @@ def gen_mesh(rng):
         verts = [[rng.uniform(-2, 2) for _ in range(3)] for _ in range(3)]
         faces = [[0, 1, 2]]
     elif kind == "sliver":
-        verts = [[0.0, 0.0, 0.0], [4.0, 0.0, 0.0], [2.0, 0.05, 0.0], [2.0, -1.0, 1.0]]
+        L = rng.uniform(3.7, 4.3)
+        verts = [[0.0, 0.0, 0.0], [L, 0.0, 0.0], [2.0 + rng.uniform(-0.5, 0.5), 0.05, 0.0], [2.0 + rng.uniform(-0.5, 0.5), -1.0, 1.0]]
         faces = [[0, 1, 2], [0, 3, 1]]
     else:
         verts, faces = [], []
@@ -99,7 +100,7 @@ def gen_mesh(rng):
             for _ in range(3):
                 verts.append([a + rng.uniform(-1, 1) for a in c])
             faces.append([3 * i, 3 * i + 1, 3 * i + 2])
-    return {"k": "c15.mesh", "verts": verts, "faces": faces, "n": rng.choice([1, 20, 100]), "spacing": rng.choice([0.2, 0.5, 5.0]), "radius": rng.choice([0.3, 0.6]), "kind": kind}
+    return {"k": "c15.mesh", "verts": verts, "faces": faces, "n": rng.choice([1, 20, 100]), "spacing": rng.choice([0.2, 0.5, 0.5, 1.0, 5.0]), "radius": rng.choice([0.3, 0.6]), "kind": kind}
 
 
 def gen_hull(rng):
@@ -132,7 +133,7 @@ def generate(rng, tier):
     out = []
     for _ in range(n):
         out += [gen_kd(rng, 2), gen_kd(rng, 3), gen_poisson(rng, 2), gen_poisson(rng, 3), gen_hull(rng)]
-    for _ in range(n // 3):
+    for _ in range(n // 2):
         out.append(gen_mesh(rng))
     for c in out:
         if c["k"].startswith("c15.kd"):
@@ -152,6 +153,10 @@ def enc_case(c):
     return c
 
 
+# the k-d tree finding explains disagreements of the query and Poisson checkers only, not of the dense-sampling (9) or hull (7, 8) ones
+EXPLAINS = {"kd-wrong-result": {1, 2, 3, 4, 5, 21, 22, 23, 24, 25}}
+
+
 def coq_check(c, r):
     k = c["k"]
     if k in ("c15.kd2", "c15.kd3"):
@@ -168,6 +173,11 @@ def coq_check(c, r):
             return None
         V = "(@VO2 FNum)" if k.endswith("2") else "(@VO3 FNum)"
         return "check_poisson %s %s %s %s %s" % (V, coq([T(p) for p in c["pts"]]), coq([int(i) for i in c["indices"]]), coq(c["r"]), coq([int(i) for i in r["keep"]]))
+    if k == "c15.mesh":
+        # the dense sample is deterministic: the whole point list against the model's, in order
+        if isinstance(r.get("dense"), dict) or len(r["dense"]) > 4000:
+            return None
+        return "check_dense %s %s %s %s" % (coq([T(p) for p in c["verts"]]), coq([tuple(int(i) for i in f) for f in c["faces"]]), coq(float(c["spacing"])), coq([T(p) for p, _ in r["dense"]]))
     if k == "c15.hull":
         # engeom's own logic on top of parry's hull: the order vote over the hull indices and the farthest pair of hull vertices
         if r.get("timeout") or r.get("panic") or "hull" not in r:
